@@ -383,7 +383,8 @@ def run_kani(harnesses, jobs=None, timeout_s=None):
         with cf.ThreadPoolExecutor(max_workers=workers) as ex:
             for h, r in ex.map(one, group):
                 results[h['name']] = r
-                if r['status'] in ('success', 'failed'):
+                # cache decided results only (a FAILED without a failed check is a tool failure and is tried again next time)
+                if r['status'] == 'success' or (r['status'] == 'failed' and r['failed_checks']):
                     json.dump(r, open(os.path.join(CACHE, 'k', base, h['name'].replace('::', '__') + '.json'), 'w'), indent=1)
     ents = sorted(glob.glob(os.path.join(CACHE, 'k', '*')), key=os.path.getmtime)
     for e in ents[:-60]: shutil.rmtree(e, ignore_errors=True)
